@@ -508,6 +508,10 @@ func runC01(c *Ctx) {
 	// ---------------------------------------------------------------- R7
 	c.rule("R7", "pooled buffers: no use, send, store, return or second release after ReleaseBuf; deferred-release buffers do not escape", 25)
 	checkBufferTypestate(c, p.Funcs)
+
+	// ---------------------------------------------------------------- R9
+	c.rule("R9", "the reply channel registered for a query is made by that registration, never recycled or shared", 2)
+	checkFreshReplyChan(c, lf)
 }
 
 // checkIdleExclusive implements C01-R6 / C09-R7.
